@@ -89,6 +89,8 @@ partial def readStmt (s : Sexp) : Option Stmt :=
         | _ => none)
       pure (.declArr (fl.contains 'c') t x dims init)
   | .list [.atom "declstruct", .atom sn, .atom x] => some (.declStruct sn x)
+  | .list (.atom "declstructinit" :: .atom fl :: .atom sn :: .atom x :: es) =>
+      (readExprs es).map (Stmt.declStructInit (fl.contains 'c') sn x)
   | .list [.atom "assign", lv, e] => do
       let lv ← readExpr lv; let e ← readExpr e; pure (.assign lv e)
   | .list [.atom "compound", .atom op, lv, e] => do
@@ -121,9 +123,13 @@ end
 
 def readParam (s : Sexp) : Option Param :=
   match s with
-  | .list [.atom ty, .atom x] => (readTy ty).map fun t => ⟨t, x, none⟩
+  | .list [.atom ty, .atom x] => (readTy ty).map fun t => ⟨t, x, none, false⟩
   | .list [.atom ty, .atom x, .atom d] => do
-      let t ← readTy ty; let d ← d.toInt?; pure ⟨t, x, some d⟩
+      let t ← readTy ty; let d ← d.toInt?; pure ⟨t, x, some d, false⟩
+  | .list [.atom ty, .atom x, .atom d, .atom "c"] => do
+      let t ← readTy ty
+      if d == "-" then pure ⟨t, x, none, true⟩ else do
+        let d ← d.toInt?; pure ⟨t, x, some d, true⟩
   | _ => none
 
 def readFunc (s : Sexp) : Option Func :=
